@@ -344,7 +344,8 @@ def _subdivide_meas_specs(
             )
 
     if readout_symmetrization:
-        repetitions //= 2
+        # Round up: an odd remainder (e.g. 1) must not turn into zero-repetition runs that never finish.
+        repetitions = (repetitions + 1) // 2
 
     return flippy_mspecs, repetitions
 
